@@ -361,6 +361,12 @@ def rule_wildcard_kind(ctx: Ctx, rep: Report) -> None:
             new = [e for e in (dp[0].elts if isinstance(dp[0], (ast.Tuple, ast.List)) else [dp[0]]) if not isinstance(e, ast.Starred)]
             names = {x.id for e in new for x in ast.walk(e) if isinstance(x, ast.Name)}
             attrs = {x.attr for e in new for x in ast.walk(e) if isinstance(x, ast.Attribute)}
+            # through locals: a step given a name first is the same step
+            for _ in range(3):
+                for a_ in ast.walk(fi.node):
+                    if isinstance(a_, ast.Assign) and any(isinstance(t, ast.Name) and t.id in names for t in a_.targets):
+                        names |= {x.id for x in ast.walk(a_.value) if isinstance(x, ast.Name)}
+                        attrs |= {x.attr for x in ast.walk(a_.value) if isinstance(x, ast.Attribute)}
             ok = idx in names and "wildcard" in attrs
             rep.ob(rule, "at_index:step", ok, f"{fi.module.relpath}:{c.lineno}", f"the step is `{', '.join(str(norm(e)) for e in new)}`" + ("" if ok else ": it does not carry the wildcard's offset, so a hardened wildcard becomes a plain step"))
     rep.floor(rule, 1)
